@@ -159,6 +159,8 @@ def step(ctx, case):
         if not vincs or vincs[-1].real is conn.display:
             ctx.assume(False)   # ill-formed: delete_id of an id that never existed / of the display
         victim = vincs[-1]
+        if not victim.alive:
+            ctx.assume(False)   # ill-formed: delete_id of an id whose object is already gone
         exp_destroyed = victim
         destroyed_was_alive = victim.alive
         if victim.alive:
@@ -334,7 +336,7 @@ def make_obligations(pid, tier):
     bounds = (bound_txt + '; table ids arbitrary integers in [2, 2^32), last incarnation alive or dead, server-range reuse explicit or implicit; '
               'target id arbitrary in [1, 2^32); argument kinds %s with arbitrary ids/values; direction, type hints present/absent chosen; '
               'times arbitrary non-decreasing integers' % '/'.join(KINDS))
-    outside = ('ill-formed steps (type clash between a mention and the table, delete_id of an unknown id or of the display, new id <= 1, '
+    outside = ('ill-formed steps (type clash between a mention and the table, delete_id of an unknown / already deleted id or of the display, new id <= 1, '
                'bind with other than 4 arguments) are assumed away; floating-point times (integers used); more table ids / incarnations / arguments than the bound')
     obs = [Ob('object-table-step', 'symx', 'Inv /\\ one ConnectionImpl.message step => spec /\\ Inv (histories of any length by induction)',
               FUNCS, bounds, step, cases=cases, stubs=STUBS, outside=outside, budget_s=1500 if tier == 'quick' else 6000),
